@@ -104,7 +104,10 @@ RBACS = [
 CREDS = [("none", None, None), ("wrong", "nope", None), ("viewer", "kv", None), ("operator", "ko", None),
          ("admin", "ka", None), ("admin2", "kb", None), ("tenant-a", "key-a", None), ("tenant-b", "key-b", None),
          ("raftkey", "rk", None), ("adminhdr", None, "adm"), ("adminhdr-wrong", None, "nope"),
-         ("tenant-a+adminhdr", "key-a", "adm"), ("adminkey-as-apikey", "adm", None)]
+         ("tenant-a+adminhdr", "key-a", "adm"), ("adminkey-as-apikey", "adm", None),
+         # near misses of real keys: prefix, extension, other case, empty
+         ("admin-prefix", "k", None), ("admin-extended", "kaa", None), ("admin-upper", "KA", None), ("empty", "", None),
+         ("tenant-prefix", "key-", None), ("tenant-extended", "key-ab", None), ("adminhdr-prefix", None, "ad"), ("adminhdr-extended", None, "admx")]
 METHODS = ["GET", "POST", "PUT", "DELETE", "PATCH"]
 REJECT_MSGS = {"Invalid or missing API key", "Insufficient permissions for this operation", "Missing API key header",
                "Invalid query parameters", "Request payload too large", "Unsupported media type", "Method not allowed",
@@ -183,7 +186,7 @@ def gen_cases(run):
         if app in ("raft", "raftcluster"):
             # every request bootstraps a Raft node: fewer credentials; the cluster half of the combined tree is sampled
             # (it is the same filter as the cluster application, only behind the Raft routes in the chain)
-            creds = [c for c in creds if c[0] in ("none", "wrong", "viewer", "operator", "admin", "admin2", "raftkey")]
+            creds = [c for c in creds if c[0] in ("none", "wrong", "viewer", "operator", "admin", "admin2", "raftkey", "admin-prefix", "admin-extended")]
         if app == "raftcluster" and run.tier != "thorough":
             eps = ENDPOINTS["raft"] + rng.shuffle(ENDPOINTS["cluster"])[:6]
         for (name, meth, tmpl, body) in eps:
@@ -317,8 +320,8 @@ def judge(c, obs, verdict):
 
 
 def check(run):
-    run.rule = ("every documented endpoint of the cluster, Raft, Raft+cluster and tenant/admin route trees x 13 credential kinds "
-                "(none, wrong, viewer, operator, admin, second admin, tenant keys, Raft key, admin header right/wrong, ...) x RBAC configurations "
+    run.rule = ("every documented endpoint of the cluster, Raft, Raft+cluster and tenant/admin route trees x 21 credential kinds "
+                "(none, wrong, viewer, operator, admin, second admin, tenant keys, Raft key, admin header right/wrong, prefixes / extensions / other case of real keys, empty) x RBAC configurations "
                 "(disabled, single key, multi-key with/without admin key, two admin keys, anonymous viewer/operator; Raft key set/unset; admin key set/unset; "
                 "rate limiter exhausted), plus sampled variants (other methods, longer/shorter paths, parameters spelling another route's literal, "
                 "missing/malformed body, bad query); each request on a fresh world with state snapshots before/after; "
